@@ -222,10 +222,16 @@ class MTSPEnv(RL4COEnvBase):
         if self.cost_type == "minmax":
             return td["reward"].squeeze(-1)
 
-        # With distance, same as TSP
+        # Sum of the lengths of all sub-tours: every agent leaves from and returns to the depot (node 0)
         elif self.cost_type == "sum":
             locs = td["locs"]
-            locs_ordered = locs.gather(1, actions.unsqueeze(-1).expand_as(locs))
+            locs_ordered = torch.cat(
+                [
+                    locs[..., 0:1, :],  # depot
+                    gather_by_index(locs, actions, squeeze=False),  # order locations
+                ],
+                dim=1,
+            )
             return -get_tour_length(locs_ordered)
 
         else:
